@@ -179,6 +179,14 @@ pub fn is_builtin(s: &str) -> bool { unimplemented!() }
 pub fn vx_any_lt(v: &Tokens, tagged: bool) -> (r: bool)
     ensures r == exists|i: int| 0 <= i < v@.len() && ((!tagged || unq(#[trigger] v@[i])) && (v@[i].1@ == "<"@ || v@[i].1@ == "<<<"@))
 { unimplemented!() }
+pub open spec fn lt_at(v: Seq<Token>, i: int, tagged: bool) -> bool { (!tagged || unq(v[i])) && (v[i].1@ == "<"@ || v[i].1@ == "<<<"@) }
+#[verifier::external_body]
+pub fn vx_position_lt(v: &Tokens, tagged: bool) -> (r: Option<usize>)
+    ensures match r {
+        Some(i) => i < v@.len() && lt_at(v@, i as int, tagged) && forall|j: int| 0 <= j < i ==> !#[trigger] lt_at(v@, j, tagged),
+        None => forall|j: int| 0 <= j < v@.len() ==> !#[trigger] lt_at(v@, j, tagged),
+    }
+{ unimplemented!() }
 #[verifier::external_body]
 pub fn vx_position_text(v: &Tokens, a: &str, tagged: bool) -> (r: Option<usize>)
     ensures match r {
@@ -288,6 +296,10 @@ ANY = [
        why='Iterator::any closure through a shim with the std contract'),
     Rw(r'tokens_new\.iter\(\)\.any\(\|x\| x\.0\.is_empty\(\) && \(x\.1 == "<" \|\| x\.1 == "<<<"\)\)', 'vx_any_lt(&tokens_new, true)', regex=True, required=False, rule='R12',
        why='Iterator::any closure (tag-checking form) through a shim with the std contract'),
+    Rw(r'tokens_new\.iter\(\)\.position\(\|x\| x\.0\.is_empty\(\) && \(x\.1 == "<" \|\| x\.1 == "<<<"\)\)', 'vx_position_lt(&tokens_new, true)', regex=True, required=False, rule='R12',
+       why='Iterator::position closure (first `<` or `<<<`, tag-checking form) through a shim with the std contract'),
+    Rw(r'tokens_new\.iter\(\)\.position\(\|x\| x\.1 == "<" \|\| x\.1 == "<<<"\)', 'vx_position_lt(&tokens_new, false)', regex=True, required=False, rule='R12',
+       why='Iterator::position closure (first `<` or `<<<`) through a shim with the std contract'),
     Rw(r'tokens_new\.iter\(\)\.position\(\|x\| x\.1 == ("<+")\)', r'vx_position_text(&tokens_new, \1, false)', regex=True, required=False, rule='R12',
        why='Iterator::position closure through a shim with the std contract'),
     Rw(r'tokens_new\.iter\(\)\.position\(\|x\| x\.0\.is_empty\(\) && x\.1 == ("<+")\)', r'vx_position_text(&tokens_new, \1, true)', regex=True, required=False, rule='R12',
@@ -333,10 +345,15 @@ from_tokens = Fn(T, 'from_tokens', impl='Command', ret='r', pre_rewrites=ANY,
     ], decreases='tokens_new@.len()')},
     hints={'loop-0-body-entry': 'lemma_tsv_props(tokens_new@, tokens@); reveal_strlit("<"); reveal_strlit("<<<"); '
                                 'assert("<"@.len() == 1 && "<"@[0] == \'<\' && "<<<"@.len() == 3 && "<<<"@[0] == \'<\'); '
-                                'assert forall|t: Token| is_lt(t) implies #[trigger] lt_like(t) by { };',
+                                'assert forall|t: Token| is_lt(t) implies #[trigger] lt_like(t) by { }; '
+                                'assert forall|j: int| 0 <= j < tokens_new@.len() implies #[trigger] lt_at(tokens_new@, j, true) == is_lt(tokens_new@[j]) by { }; '
+                                'if has_redirect_from { let w_ = choose|i: int| 0 <= i < tokens_new@.len() && is_lt(#[trigger] tokens_new@[i]); assert(lt_at(tokens_new@, w_, true)); }',
            # the word taken off the command as the input-redirection operator is an UNQUOTED `<` / `<<<`: a quoted, escaped or expanded `<` is an argument
-           'before-text-all:tokens_new.remove(idx);':
+           'before-text:redirects_from_type = tokens_new.remove(idx).1;':
                'LABEL:C01+C13+C04+C11.from_tokens.only_an_unquoted_lt_is_removed_as_operator: assert(idx < tokens_new@.len() && is_lt(tokens_new@[idx as int]));',
+           # C04: redirections are applied left to right -- the operator taken off in each round is the leftmost one still there, so the last one on the line is the one in effect
+           'after-text:vx_position_lt(&tokens_new, true) {':
+               'LABEL:C04.from_tokens.input_redirections_are_taken_from_left_to_right: assert forall|j: int| 0 <= j < idx implies !is_lt(#[trigger] tokens_new@[j]) by { assert(!lt_at(tokens_new@, j, true)); }',
            'before-call:tokens_to_redirections': 'lemma_tsv_props(tokens_new@, tokens@);',
            'after-call:split_glued_input_redirections': 'lemma_tsv_props(tokens_new@, tokens@);'},
 )
